@@ -4,10 +4,10 @@ package main
 // typestate / block rotation / matcher guards (C01, C17).
 
 import (
-	"os"
 	"fmt"
 	"go/token"
 	"go/types"
+	"os"
 	"strings"
 
 	"golang.org/x/tools/go/ssa"
